@@ -547,16 +547,20 @@ def replay_generic(ctx, case, prop):
         sp["frac"] = 1.0
     camp.build()
     report_gen_failures(camp, ctx, prop)
+    crashes = []
     if case["ev"] == "ser":
         v = retuple(t, case["v"])
-        camp.ser_events([{"ti": ti0, "v": v, "klass": case.get("klass", "common"), "case": camp.new_case()}],
-                        buf_of=(lambda c, need: case["buf"]) if "buf" in case and case["buf"] is not None and case["buf"] >= 0 else None)
+        crashes = camp.ser_events([{"ti": ti0, "v": v, "klass": case.get("klass", "common"), "case": camp.new_case()}],
+                                  buf_of=(lambda c, need: case["buf"]) if "buf" in case and case["buf"] is not None and case["buf"] >= 0 else None).get("crash", [])
     elif case["ev"] in ("des", "rt"):
         priors = (0, case["prior"]) if case.get("prior") else (0,)
-        camp.des_events([{"ti": ti0, "data": bytes.fromhex(case["data"]), "why": case.get("why", "replay"), "case": camp.new_case(), "priors": priors,
-                          "null": case.get("null", False)}], op="D" if case["ev"] == "des" else "R")
+        data = case["data"]
+        crashes = camp.des_events([{"ti": ti0, "data": bytes.fromhex(data) if isinstance(data, str) else bytes(data), "why": case.get("why", "replay"), "case": camp.new_case(),
+                                    "priors": priors, "null": case.get("null", False)}], op="D" if case["ev"] == "des" else "R").get("crash", [])
     else:
         camp.meta_events([ti0])
+    for info, r in crashes:  # the call still does not return on this tree
+        ctx.violation("%s|%s|noret|replay" % (prop, target_kind(sp["name"])), "the call did not return: %s" % (r.get("crash", "").strip().splitlines() or ["?"])[-1][:200], case)
     rej = camp.judge()
     return report(camp, ctx, rej, prop, extra_owner=case.get("extra_owner"))
 
